@@ -18,6 +18,7 @@ import random
 import re
 import shutil
 import subprocess
+import sys
 
 import common as C
 import gomod
@@ -244,7 +245,7 @@ def t_byvalue(r, name):
     """forms goose does not translate (a wait group held by value, the mutex reached through a condition variable's L field):
     they must be rejected, or mean what Go means"""
     v = r.randrange(1, 60)
-    variant = getattr(r, "byvalue_variant", r.randrange(3))
+    variant = getattr(r, "byvalue_variant", r.randrange(8))
     if variant == 0:
         return ("func %s() uint64 {\n\tvar wg sync.WaitGroup\n\tmu := new(sync.Mutex)\n\tvar n uint64 = 0\n\twg.Add(1)\n\tgo func() {\n\t\tmu.Lock()\n\t\tn = n + %d\n\t\tmu.Unlock()\n\t\twg.Done()\n\t}()\n"
                 "\twg.Wait()\n\tmu.Lock()\n\tres := n\n\tmu.Unlock()\n\treturn res\n}\n" % (name, v)), True
@@ -253,6 +254,25 @@ def t_byvalue(r, name):
         return ("func %s() uint64 {\n\tvar mu *sync.Mutex = new(sync.Mutex)\n\tc := sync.NewCond(mu)\n\tfirst := mu\n\tmu = new(sync.Mutex)\n\tvar ready bool = false\n\tvar n uint64 = %d\n"
                 "\tgo func() {\n\t\tfirst.Lock()\n\t\tn = n + 1\n\t\tready = true\n\t\tc.Signal()\n\t\tfirst.Unlock()\n\t}()\n"
                 "\tc.L.Lock()\n\tfor !ready {\n\t\tc.Wait()\n\t}\n\tres := n\n\tc.L.Unlock()\n\tmu.Lock()\n\tmu.Unlock()\n\treturn res\n}\n" % (name, v)), True
+    if variant == 3:
+        # a copy of a wait group made by dereferencing a pointer to one
+        return ("func %s() uint64 {\n\tp := new(sync.WaitGroup)\n\twg := *p\n\tmu := new(sync.Mutex)\n\tvar n uint64 = 0\n\twg.Add(1)\n\tgo func() {\n\t\tmu.Lock()\n\t\tn = n + %d\n\t\tmu.Unlock()\n\t\twg.Done()\n\t}()\n"
+                "\twg.Wait()\n\tmu.Lock()\n\tres := n\n\tmu.Unlock()\n\treturn res\n}\n" % (name, v)), True
+    if variant == 4:
+        # a mutex assigned through pointers
+        return ("func %s() uint64 {\n\tp := new(sync.Mutex)\n\tq := new(sync.Mutex)\n\t*p = *q\n\tvar n uint64 = %d\n\tp.Lock()\n\tn = n + 1\n\tp.Unlock()\n\treturn n\n}\n" % (name, v)), True
+    if variant == 5:
+        # the mutex of a condition variable replaced through its field L
+        return ("func %s() uint64 {\n\tmu := new(sync.Mutex)\n\tm2 := new(sync.Mutex)\n\tc := sync.NewCond(mu)\n\tc.L = m2\n\tvar ready bool = false\n\tvar n uint64 = %d\n"
+                "\tgo func() {\n\t\tm2.Lock()\n\t\tn = n + 1\n\t\tready = true\n\t\tc.Signal()\n\t\tm2.Unlock()\n\t}()\n"
+                "\tm2.Lock()\n\tfor !ready {\n\t\tc.Wait()\n\t}\n\tres := n\n\tm2.Unlock()\n\treturn res\n}\n" % (name, v)), True
+    if variant == 6:
+        # a mutex passed as a sync.Locker
+        return ("func %s_with(l sync.Locker, p *uint64) {\n\tl.Lock()\n\t*p = *p + 1\n\tl.Unlock()\n}\n\n"
+                "func %s() uint64 {\n\tmu := new(sync.Mutex)\n\tp := new(uint64)\n\t*p = %d\n\t%s_with(mu, p)\n\treturn *p\n}\n" % (name, name, v, name)), True
+    if variant == 7:
+        # the field L read as a value
+        return ("func %s() uint64 {\n\tmu := new(sync.Mutex)\n\tc := sync.NewCond(mu)\n\tvar n uint64 = %d\n\tl := c.L\n\tl.Lock()\n\tn = n + 1\n\tl.Unlock()\n\tmu.Lock()\n\tres := n\n\tmu.Unlock()\n\treturn res\n}\n" % (name, v)), True
     return ("func %s() uint64 {\n\tmu := new(sync.Mutex)\n\tc := sync.NewCond(mu)\n\tvar n uint64 = %d\n\tc.L.Lock()\n\tn = n + 1\n\tc.L.Unlock()\n\tmu.Lock()\n\tres := n\n\tmu.Unlock()\n\treturn res\n}\n" % (name, v)), True
 
 
@@ -265,6 +285,18 @@ def t_global(r, name):
                 "func %s() uint64 {\n\tvar n uint64 = 0\n\tg%s_wg.Add(1)\n\tgo func() {\n\t\tg%s_mu.Lock()\n\t\tn = n + %d\n\t\tg%s_mu.Unlock()\n\t\tg%s_wg.Done()\n\t}()\n"
                 "\tg%s_wg.Add(1)\n\tgo func() {\n\t\tg%s_mu.Lock()\n\t\tn = n + 1\n\t\tg%s_mu.Unlock()\n\t\tg%s_wg.Done()\n\t}()\n"
                 "\tg%s_wg.Wait()\n\tg%s_mu.Lock()\n\tres := n\n\tg%s_mu.Unlock()\n\treturn res\n}\n" % ((name, name, name, name, name, v) + (name,) * 9)), True
+    gv = getattr(r, "global_variant", 0)
+    if gv == 2:
+        # the same globals, declared with their type
+        return ("var g%s_mu *sync.Mutex = new(sync.Mutex)\n\nvar g%s_wg *sync.WaitGroup = new(sync.WaitGroup)\n\n"
+                "func %s() uint64 {\n\tvar n uint64 = 0\n\tg%s_wg.Add(1)\n\tgo func() {\n\t\tg%s_mu.Lock()\n\t\tn = n + %d\n\t\tg%s_mu.Unlock()\n\t\tg%s_wg.Done()\n\t}()\n"
+                "\tg%s_wg.Wait()\n\tg%s_mu.Lock()\n\tres := n\n\tg%s_mu.Unlock()\n\treturn res\n}\n" % ((name, name, name, name, name, v) + (name,) * 5)), True
+    if gv == 3:
+        # literals without & (elements of a slice of pointers; a mutex by value)
+        return ("func %s() uint64 {\n\tms := []*sync.Mutex{{}}\n\tws := []*sync.WaitGroup{{}}\n\tvar n uint64 = 0\n\tws[0].Add(1)\n\tgo func() {\n\t\tms[0].Lock()\n\t\tn = n + %d\n\t\tms[0].Unlock()\n\t\tws[0].Done()\n\t}()\n"
+                "\tws[0].Wait()\n\tms[0].Lock()\n\tres := n\n\tms[0].Unlock()\n\treturn res\n}\n" % (name, v)), True
+    if gv == 4:
+        return ("func %s() uint64 {\n\tm := sync.Mutex{}\n\tvar n uint64 = %d\n\tm.Lock()\n\tn = n + 1\n\tm.Unlock()\n\treturn n\n}\n" % (name, v)), True
     return ("func %s() uint64 {\n\tmu := &sync.Mutex{}\n\twg := &sync.WaitGroup{}\n\tvar n uint64 = 0\n\twg.Add(1)\n\tgo func() {\n\t\tmu.Lock()\n\t\tn = n + %d\n\t\tmu.Unlock()\n\t\twg.Done()\n\t}()\n"
             "\twg.Wait()\n\tmu.Lock()\n\tres := n\n\tmu.Unlock()\n\treturn res\n}\n" % (name, v)), True
 
@@ -274,7 +306,7 @@ MAY_BE_REJECTED = {"t_goargs", "t_byvalue", "t_global"}
 TEMPLATES = [t_goargs, t_counter, t_counter, t_cond, t_timeout, t_order, t_loopspawn, t_helper, t_handoff, t_signalled, t_owntypes, t_bcast, t_byvalue, t_byvalue, t_byvalue, t_poll, t_global, t_global, t_loopvar]
 
 
-def package(seed, nfuncs=14):
+def package(seed, nfuncs=16):
     r = random.Random(seed)
     fns = []
     for k in range(nfuncs):
@@ -282,9 +314,11 @@ def package(seed, nfuncs=14):
         # whose mutex lives in a re-assignable variable; then templates by rotation and at random
         r.force_zero_timeout = (seed % 2 == 0)
         r.force_var_mutex = (k == 2)
-        r.global_variant = (seed + k) % 2
-        r.byvalue_variant = (seed + k) % 3
-        t = [t_timeout, t_goargs, t_counter, t_signalled, t_owntypes, t_bcast, t_byvalue, t_poll, t_global, t_loopvar, t_byvalue, t_cond, t_handoff][k] if k < 13 else r.choice(TEMPLATES)
+        fixed = [t_timeout, t_goargs, t_counter, t_signalled, t_owntypes, t_bcast, t_byvalue, t_poll, t_global, t_loopvar, t_byvalue, t_cond, t_handoff, t_byvalue, t_global]
+        t = fixed[k] if k < len(fixed) else r.choice(TEMPLATES)
+        # the rejected-or-faithful forms rotate with the seed: three of eight t_byvalue forms and two of five t_global forms per package
+        r.byvalue_variant = (seed * 3 + sum(1 for x in fixed[:k] if x is t_byvalue)) % 8
+        r.global_variant = (seed * 2 + sum(1 for x in fixed[:k] if x is t_global)) % 5
         src, det = t(r, "c%d" % k)
         fns.append(("c%d" % k, t.__name__, src, det))
     body = "\n".join(f[2] for f in fns)
@@ -341,6 +375,8 @@ def check(ctx, build=None):
 
     def viol(what, inp, expected, observed):
         nonlocal found
+        if os.environ.get("VERIF_DEBUG"):
+            sys.stderr.write("debug: %s %s %s %s\n" % (what[:90], inp.get("template"), (inp.get("go_source") or "")[:160].replace("\n", " "), json.dumps(observed)[:200]))
         if not found:
             found = True
             ctx.violation("counterexample", what, inp, expected=expected, observed=observed)
@@ -360,7 +396,8 @@ def check(ctx, build=None):
             present = set(nm[1][6:].split(",")) if not nm[0].startswith("parse-error") and nm[1] != "names -" else set()
             # a function that uses a package-level variable goose refused is not translated either (under -ignore-errors the rest of
             # the file is still written)
-            missing_fns = [f for f in fns if f[0] not in present or any(g not in present for g in re.findall(r"^var (\w+) =", f[2], re.M))]
+            missing_fns = [f for f in fns if f[0] not in present or any(g not in present for g in re.findall(r"^var (\w+) [^\n]*=", f[2], re.M))
+                           or any(g not in present for g in re.findall(r"^func (\w+)\(", f[2], re.M))]
             for f in missing_fns:
                 if f[1] in MAY_BE_REJECTED:
                     stats["rejected_out_of_subset"] += 1
